@@ -50,18 +50,21 @@ PROPS = {
         witness=['c04', '--only-c15'],
         witness_thorough=['c04', '--only-c15', '--depth', '3', '--random', '3000000'],
         level='proof',
-        technique='Verus data-structure invariant (c15) on the real CircuitBuilder, proved preserved by every push_* function; Verus contract on the real remove_unused_gates (minimality of the marked set)',
+        technique='Verus data-structure invariant (c15) on the real CircuitBuilder, proved preserved by every push_* function; Verus contracts on the real remove_unused_gates (minimality of the marked set) and build (transfer to the final numbering)',
         claim='Unbounded deductive proof (Verus/Z3) of the emission-side invariant: no AND gate with a constant or repeated operand '
               'is ever pushed; with de-duplication on, no two AND gates with the same unordered operand pair; and/xor with a '
               'constant-false/itself, mux and condswap of equal wires push nothing. remove_unused_gates (unit prune): in the pruned, renumbered gate list '
               'every gate belongs to every operand-closed set of gates that contains the requested outputs and the wires of the panic record - i.e. '
               'every remaining gate reaches an output (all_reach; marking-loop invariant: the marks and the stack lie inside every such set); an AND '
               'gate keeps non-constant, different operands and no two AND gates get the same operand pair through the renumbering (it is injective on '
-              'kept wires). build (which adds the two constant gates) and the composition over compile are not under contract: bounded differential.',
-        note='Same trusted base as C04. Unverified: build; the consequence for whole data-movement programs (composition over compile).',
+              'kept wires). build (same unit): in the returned SSA circuit every gate except the two constant gates belongs to every operand-closed set of '
+              'gates that contains the outputs (ssa_all_reach); no AND gate reads a constant wire or the same wire twice and, with de-duplication, no two '
+              'AND gates read the same pair (ssa_and_ok, ssa_no_dup_and) - given that the builder satisfied the emission-side invariant. The composition '
+              'over compile (that only data movement emits no AND request) is not under contract: bounded differential.',
+        note='Same trusted base as C04. Unverified: the consequence for whole data-movement programs (composition over compile).',
         title='emission-side invariant: no AND gate with a constant or repeated operand is ever pushed, with '
-              'de-duplication no two AND gates share an unordered operand pair; trivial and/xor/mux/condswap push nothing; after pruning every remaining gate reaches an output',
-        unverified=['build (translation into the final numbering; the two constant gates are exempt by the statement): differential search only',
+              'de-duplication no two AND gates share an unordered operand pair; trivial and/xor/mux/condswap push nothing; in the built circuit every gate but the two constants reaches an output',
+        unverified=['termination of the marking loop of remove_unused_gates',
                     'consequence for whole data-movement programs (composition over compile)'],
     ),
     'C02': dict(
